@@ -61,6 +61,12 @@ def patched_svd(module, name, record, force=None):
 
 def dyadic_spectrum(rng, n):
     """descending dyadic values, with ties and zeros, exactly representable together with their squares and sums"""
+    if n >= 3 and rng.random() < 0.3:
+        # a few large values followed by a flat tail of equal small ones (each below, together above a threshold)
+        m = rng.randrange(2, n)
+        small = rng.choice([1, 1, 3]) / rng.choice([16, 32, 64])
+        big = sorted((rng.choice([1, 2, 3, 4]) / rng.choice([1, 2]) for _ in range(n - m)), reverse=True)
+        return [float(v) for v in big] + [float(small)] * m
     vals = sorted((rng.choice([0, 0, 1, 1, 2, 3, 4, 6, 8]) / rng.choice([1, 2, 4, 8, 16]) for _ in range(n)), reverse=True)
     return [float(v) for v in vals]
 
@@ -72,7 +78,12 @@ def dyadic_threshold(rng, s):
     for v in rev:
         acc += Fraction(v) ** 2
         sums.append(acc)
-    mode = rng.choice(["on", "on", "off+", "off-", "rand", "zero"])
+    mode = rng.choice(["on", "on", "off+", "off-", "rand", "zero", "between", "between"])
+    if mode == "between":
+        # strictly between two consecutive partial sums (exact dyadic midpoint)
+        j = rng.randrange(len(sums))
+        lo = sums[j - 1] if j > 0 else Fraction(0)
+        return float((lo + sums[j]) / 2)
     if mode == "zero":
         return 0.0
     if mode == "rand":
@@ -142,7 +153,7 @@ def params(mode, thr, mn, mx):
 
 
 def gen(rng, tier):
-    n = {"quick": 260, "thorough": 2500, "search": 500}.get(tier, 260)
+    n = {"quick": 3000, "thorough": 40000, "search": 3000}.get(tier, 260)
     for i in range(n):
         r = rng.random()
         sub = rng.randrange(1 << 30)
@@ -228,6 +239,23 @@ def run_split(inp, forced):
     oracle = None
     if exc:
         oracle = {"ok": False, "detail": f"split_mps_tensor raised {exc} on shape {tensor.shape} mode={mode} thr={thr} min={mn} max={mx}"}
+    elif forced:
+        # direct check of the property on the decision the real code took for the spectrum it saw (exact arithmetic)
+        keep = a0.shape[2]
+        fs = [Fraction(float(v)) for v in seen]
+        tail = sum((v * v for v in fs[keep:]), Fraction(0))
+        probs = []
+        if keep > max(mx, min(mn, len(fs))):
+            probs.append(f"kept {keep} > max(max_bond={mx}, min_bond={mn})")
+        if mode == "discarded_weight":
+            if tail > Fraction(thr) and keep < min(len(fs), mx) and not edge:
+                probs.append(f"discarded weight {float(tail):.6g} > threshold {thr:.6g} although the cap {mx} does not force it (kept {keep} of {len(fs)}, spectrum {[float(v) for v in seen]})")
+        elif fs[0] > 0 and not edge:
+            cnt = sum(1 for v in fs if v / fs[0] >= Fraction(thr))
+            want = min(max(min(cnt, mx), mn), len(fs))
+            if keep != want:
+                probs.append(f"relative mode kept {keep}, but {cnt} values are >= thr*s0 and min/max = {mn}/{mx} (expected {want}); spectrum {[float(v) for v in seen]}")
+        oracle = {"ok": not probs, "detail": "; ".join(probs) or f"forced spectrum: kept {keep}, discarded {float(tail):.3e} <= thr or cap-forced"}
     elif not forced:
         keep = a0.shape[2]
         theta = np.einsum("ilk,jkr->ilj r".replace(" ", ""), a0, a1).reshape(d0 * dl, d1 * dr)
@@ -321,6 +349,16 @@ def run_two(inp, forced):
     impl = "err" if exc else str(an.shape[2])
     edge = margin_edge(seen, thr) and not (forced and float_sums_exact(seen))
     oracle = None
+    if forced and not exc:
+        keep = an.shape[2]
+        fs = [Fraction(float(v)) for v in seen]
+        tail = sum((v * v for v in fs[keep:]), Fraction(0))
+        probs = []
+        if cap is not None and keep > cap:
+            probs.append(f"two_site_svd kept {keep} > cap {cap}")
+        if tail > Fraction(thr) and (cap is None or keep < cap) and not edge:
+            probs.append(f"two_site_svd discarded weight {float(tail):.6g} > threshold {thr:.6g} (kept {keep} of {len(fs)}, cap {cap}, spectrum {[float(v) for v in seen]})")
+        oracle = {"ok": not probs, "detail": "; ".join(probs) or f"forced spectrum: kept {keep}, discarded {float(tail):.3e}"}
     if not forced and not exc:
         keep = an.shape[2]
         th = np.tensordot(an, bn, axes=(2, 1)).reshape(dl * d0, d1 * dr)
